@@ -87,6 +87,11 @@ CHECKS = {
   note="u32/usize counters modelled as Nat; model tied to the real functions (and format_error rendering) by exhaustive small documents over a 6-character alphabet plus random documents.",
   technique="Lean 4 proof (induction over documents, loop invariants) + exhaustive small-document correspondence + counting oracle",
   ref="C19"),
+ "C20": dict(
+  text="Lean 4 theorems over a value model of models/classes (int, bool, str, float bits, Option, List, Dict[str,·], nested structs with ordered named fields) and abstract JSON: `roundtrip` — by mutual structural induction, decode t (encode v) = v for every value of every well-formed type at any nesting depth (struct fields found by name among distinct names, Option as value-or-null over non-option payloads); `json_field_names` (exactly the declared names, in declaration order) and the type-mapping rows; `eq_iff_structural` (== holds iff the values are identical field by field, at any depth), `eq_fields`; `ord_lexicographic` (the first differing field in declaration order decides) with the swap laws of the leaf orders; `hash_respects_eq` (equal values feed the hasher identical input); `derives_closed` / `derives_kept` — for every subset of the documented derives the emitted #[derive] list satisfies rustc's supertrait requirements and keeps what the user wrote.",
+  note="serde/serde_json and rustc's derive macros are trusted to implement the contract the model states; the repo-specific part (derive list, attributes, field naming, to_json/from_json glue, json_stringify builtin) is tied by compiling and running generated programs. One fix: commit (`.clone()` rejected by the checker). Findings outside this check's streams are listed in DESIGN.md (d[model_key] read needs Display; sorted(List[Model]) rejected).",
+  technique="Lean 4 proof (mutual structural induction over nested values/types; finite case analysis for derive subsets) + compiled-program correspondence + Python (json, tuple order) oracle",
+  ref="C20"),
 }
 
 NOT_APPLICABLE = {
